@@ -51,6 +51,13 @@ int main(int argc, char** argv) {
             w.key("inside").begin_arr();
             for (uint64_t i = 0; i < pts.count; i++) w.i(r[i] ? 1 : 0);
             w.end_arr();
+            // the answer may not depend on what the caller's buffer held (python/gdstk_module.cpp
+            // passes an uninitialised allocation): ask again with every entry preset to true
+            memset(r, 1, pts.count + 1);
+            inside(pts, polys, r);
+            w.key("inside1").begin_arr();
+            for (uint64_t i = 0; i < pts.count; i++) w.i(r[i] ? 1 : 0);
+            w.end_arr();
             w.kb("all", all_inside(pts, polys)).kb("any", any_inside(pts, polys));
             w.key("call").begin_arr();
             for (uint64_t i = 0; i < polys.count; i++) w.b(polys[i]->contain_all(pts));
